@@ -200,3 +200,100 @@ def rich_pairs(ctx, n, sets=True, keys=None):
             t2 = edit(t2)
         out.append((t1, t2))
     return out
+
+
+HOSTILE_KEYS = ['a', 'b', '', 'root', 'x y', "it's", 'say "x"', 'C:\\tmp\\n', 'a\nb', 'tab\there', 'a.b', 'a[0]', "a']['b", 'é', '_p', 'old_value', 'new_path', '0', '1.5',
+                b'x', b'ab c', b"it's", b'', 0, 2, -3, 10 ** 20, 2.5, 0.0, None, (1, 2), (0, (1.5, None)), ()]      # tuple keys without strings (F57)
+
+
+def hostile_leaves():
+    """leaves at the edges of the types the library documents: huge and tiny numbers, text that differs in line ends / marks / case,
+    byte strings with a BOM or undecodable bytes, dates and times with offsets, UUIDs, Decimals in several spellings, empty containers"""
+    import datetime, decimal, uuid, math
+    D = decimal.Decimal
+    tz = lambda h, m=0: datetime.timezone(datetime.timedelta(hours=h, minutes=m))
+    return [2 ** 70, 2 ** 70 + 1, -2 ** 63 - 1, 10 ** 30, 5e-324, 1e-320, 1e308, math.nextafter(0.1, 1), 0.1, 2.5, float('inf'), float('-inf'),
+            D('2.5'), D('2.50'), D('1E+3'), D('1000'), D('Infinity'), D('-0'), D('0.1'),
+            'a', 'A', 'a\n', 'a\r\nb', 'a\nb', 'a\nb\n', ' a', '\ufeffa', 'Straße', 'STRASSE', '', 'é', 'e\u0301',
+            b'a', b'\xef\xbb\xbfa', b'a\x00', b'', b'l1\nl2', b'l1\nl2\n',       # no undecodable bytes / unpaired surrogates: DeepHash refuses them by design (encodings=...)
+            datetime.datetime(2020, 1, 1, 12, 0, tzinfo=tz(0)), datetime.datetime(2020, 1, 1, 17, 30, tzinfo=tz(5, 30)), datetime.datetime(2020, 1, 1, 12, 0, tzinfo=tz(-8)),
+            datetime.datetime(2020, 1, 1, 12, 0, 0, 7, tzinfo=tz(0)), datetime.date(2020, 1, 1), datetime.date(1, 1, 1), datetime.time(1, 2, 3), datetime.time(1, 2, 3, 4),
+            datetime.timedelta(0), datetime.timedelta(days=365000, microseconds=1), datetime.timedelta(days=365000), datetime.timedelta(microseconds=-1),
+            uuid.UUID(int=1), uuid.UUID(int=2), 1 + 2j, 1 - 2j, 2j, None, [], {}, (), frozenset(), frozenset({1, 'a'}), frozenset({(1, 2)})]
+
+
+def hostile_pairs(ctx, n, sets=True, alias=True, keys=None, leaves=None):
+    """pairs of nested values over hostile keys and edge-case leaves, in lists, tuples, dictionaries and sets; the second value is an edit of a
+    deep copy of the first, and now and then keeps some of the first one's own sub-objects (shared by identity), or the first holds one
+    sub-object at two places.  Implementation only (outside the model universe)."""
+    import copy as _copy
+    rng = ctx.rng
+    pool = leaves or hostile_leaves()
+    keys = keys or HOSTILE_KEYS
+
+    def hashable(v):
+        try:
+            hash(v); return True
+        except TypeError:
+            return False
+
+    def gen(d=0):
+        r = rng.random()
+        if d >= 3 or r < 0.3:
+            return _copy.deepcopy(rng.choice(pool))
+        if r < 0.5:
+            return [gen(d + 1) for _ in range(rng.randint(0, 4))]
+        if r < 0.6:
+            return tuple(gen(d + 1) for _ in range(rng.randint(0, 3)))
+        if r < 0.9 or not sets:
+            return {rng.choice(keys): gen(d + 1) for _ in range(rng.randint(0, 4))}
+        return {x for x in (_copy.deepcopy(rng.choice(pool)) for _ in range(rng.randint(0, 4))) if hashable(x)}
+
+    def edit(v, d=0):
+        if isinstance(v, list):
+            v = list(v); r = rng.random()
+            if v and r < 0.25:
+                del v[rng.randrange(len(v))]
+            elif r < 0.5:
+                v.insert(rng.randint(0, len(v)), gen(2))
+            elif v and r < 0.6:
+                i, j = rng.randrange(len(v)), rng.randrange(len(v)); v[i], v[j] = v[j], v[i]
+            elif v:
+                i = rng.randrange(len(v)); v[i] = edit(v[i], d + 1)
+            return v
+        if isinstance(v, tuple):
+            return tuple(edit(list(v), d))
+        if isinstance(v, dict):
+            v = dict(v); r = rng.random()
+            if v and r < 0.25:
+                del v[rng.choice(list(v))]
+            elif r < 0.5:
+                v[rng.choice(keys)] = gen(2)
+            elif v:
+                k = rng.choice(list(v)); v[k] = edit(v[k], d + 1)
+            return v
+        if isinstance(v, set):
+            v = set(v)
+            if v and rng.random() < 0.5:
+                v.pop()
+            else:
+                x = _copy.deepcopy(rng.choice(pool))
+                if hashable(x):
+                    v.add(x)
+            return v
+        return gen(2)
+
+    out = []
+    for _ in range(n):
+        t1 = gen()
+        if not isinstance(t1, (list, dict, tuple)):
+            t1 = [t1, gen(1)]
+        r = rng.random()
+        if alias and r < 0.15 and isinstance(t1, list) and t1:
+            t1 = t1 + [t1[0]]                                  # one object at two places of t1
+        base = _copy.deepcopy(t1) if (not alias or rng.random() < 0.8) else (list(t1) if isinstance(t1, list) else dict(t1) if isinstance(t1, dict) else tuple(t1))
+        t2 = edit(base)
+        if rng.random() < 0.4:
+            t2 = edit(t2)
+        out.append((t1, t2))
+    return out
